@@ -532,7 +532,7 @@ def check(prop, tier, seed):
             dist_k = "%s/%s" % (ss.name, c[2] or c[1])
             dist[dist_k] = dist.get(dist_k, 0) + 1
             d = compare_case(c, impl.get(c[0]), mod.get(c[0]))
-            if d and "timeout" in str(d.get("observed", "")) and ss.cfg != "tsan" and ss.name not in ("pool", "tsan-pool"):
+            if d and "timeout" in str(d.get("observed", "")) and ss.name not in ("pool", "tsan-pool"):
                 # slow is not wrong: a case that ran out of its (load-dependent) time budget is run again
                 # alone with a 15x budget (at most 15 minutes, or twice the stream's own budget); a real hang still times out and is reported
                 i2, m2, e2 = run_cases([c], ss.cfg, os.path.join(rundir, ss.name + "_retry"), ss.extra_defs, ss.tag,
